@@ -1056,7 +1056,8 @@ def rules(tier):
             ('C08.R28', r28_exhausted_session_restores_nothing),
             # C08-fa: _find_prob(new_parent) without base_prob in is_parent_around
             ('C08.R29', r29_find_prob_scaled),
-            ('C08.R30', _shared_rule('plumbing', 'ruleset_info_keys'))]
+            ('C08.R30', _shared_rule('plumbing', 'ruleset_info_keys')),
+            ('C08.R31', _shared_rule('c01', 'r20_records_are_fresh'))]
 
 
 META = {
